@@ -345,6 +345,7 @@ type egen struct {
 	ivInUse map[string]bool  // loop variables of the enclosing loops
 	concP  int               // percent of statements that are conc blocks (default 5)
 	noteN  int               // running argument of obsC / Note events, distinct per rule
+	recvLocal bool           // the rule starts with `t = S`: method / three-level calls may go through the local
 }
 
 func lit(k, v string) *RE { return &RE{Op: "lit", Val: &JVal{k, v}} }
@@ -702,6 +703,13 @@ func (g *egen) genToks(depth int) *RE {
 			damaged = false
 			break
 		}
+		// `-` in front of a numeric literal is the literal's sign wherever an operand is expected
+		if damaged && toks[k].T == "ar" && toks[k].Sym == "-" && toks[k+1].T == "atom" && toks[k+1].E.Op == "lit" &&
+			toks[k+1].E.Val.K != "string" && toks[k+1].E.Val.K != "bool" {
+			toks = orig
+			damaged = false
+			break
+		}
 	}
 	if len(toks) == 0 {
 		toks = []*PTok{{T: "atom", E: lit("int64", "1")}}
@@ -1052,16 +1060,22 @@ func (g *egen) concStmt() *RS {
 		g.noteN++
 		pool = append(pool, &RS{Op: "call", E: &RE{Op: "call", Kind: "func", Sym: "obsC", Args: []*RE{lit("int64", strconv.Itoa(g.noteN))}}})
 	}
+	recv := func() string {
+		if g.recvLocal && r.chance(1, 2) {
+			return "t" // a rule-local receiver: the data context finds it in the local store
+		}
+		return "S"
+	}
 	for k, n := 0, r.intn(4); k < n; k++ {
 		g.noteN++
-		pool = append(pool, &RS{Op: "call", E: &RE{Op: "call", Kind: "method", Sym: "S.Note", Args: []*RE{lit("int64", strconv.Itoa(g.noteN))}}})
+		pool = append(pool, &RS{Op: "call", E: &RE{Op: "call", Kind: "method", Sym: recv() + ".Note", Args: []*RE{lit("int64", strconv.Itoa(g.noteN))}}})
 	}
 	if r.chance(1, 3) {
 		pool = append(pool, &RS{Op: "call", E: &RE{Op: "call", Kind: "method", Sym: "S.Echo32", Args: []*RE{g.smallNum()}}})
 	}
 	for k, n := 0, r.intn(4); k < n; k++ {
 		g.noteN++
-		pool = append(pool, &RS{Op: "call", E: &RE{Op: "call", Kind: "three", Sym: "S.Sub.Mark", Args: []*RE{lit("int64", strconv.Itoa(g.noteN))}}})
+		pool = append(pool, &RS{Op: "call", E: &RE{Op: "call", Kind: "three", Sym: recv() + ".Sub.Mark", Args: []*RE{lit("int64", strconv.Itoa(g.noteN))}}})
 	}
 	if r.chance(1, 8) || (g.illP > 50 && r.chance(1, 3)) {
 		// a call whose argument faults by itself (an element access reflect refuses): the child's own
